@@ -3,8 +3,9 @@ import ScionVerif.Lemmas.Token
 # C10 — a SNAP token is accepted exactly when authentic, for SNAP, and within lifetime
 
 Property theorems over the model `Model/Token.lean` of `SnapTokenVerifier::verify` (+ jsonwebtoken's
-`decode`/`validate`, `AnyClaims::deserialize`, the lifetime computation of
-`register_snaptun_identity_handler`).  The verifier configuration is `generatedValidation`, i.e. what
+`decode`/`validate`, `AnyClaims::deserialize`) and of the arithmetic by which
+`register_snaptun_identity_handler` derives the registration lifetime (section 2: pinned by the translator,
+compared with the real handler by the harness, not proved of the Rust code).  The verifier configuration is `generatedValidation`, i.e. what
 `translator/domains_token.py` re-extracts from `build_validation()` and from the vendored jsonwebtoken
 source on every run; the acceptance condition `Spec` (the property text written out, `Lemmas/Token.lean`
 part A) mentions the literals `"EdDSA"` and `"snap"` and the generated `leeway`.
@@ -83,16 +84,30 @@ theorem verify_no_panic (keys : Keys) (t : ParsedToken) (now : Nat)
     verify generatedValidation keys t now ≠ .error .panic :=
   verify_no_panic_of generatedValidation keys t now hnow hmax
 
-/-! ## 2. The granted lifetime -/
+/-! ## 2. The granted lifetime
 
-/-- **The registration lifetime never exceeds the token's remaining lifetime**: if the verifier
-accepted the token (claims `c`) and the handler, at any later instant `nowNs` (nanoseconds), grants a
-lifetime `d`, then the registration ends exactly at the token's `exp` claim – `nowNs + d = exp·10⁹` –
-and `c.exp` *is* the `exp` claim of the verified payload. -/
+`lifetime` (Model/Token.lean) is the arithmetic of `register_snaptun_identity_handler`; the theorems of
+this section are short consequences of that definition and of `verify_eq_ok` - what they add over the
+definition is (a) that the `exp` the handler uses is the `exp` member of the payload the signature
+covers, and (b) the bound against the verification instant.  That the real handler computes this
+function is NOT proved: it is pinned by the translator (`handler_lifetime_generated`) and observed on
+the real handler for every accepted token of the harness run. -/
+
+/-- the statements of `register_snaptun_identity_handler` that compute the lifetime, as re-extracted
+from crpc.rs / v0.rs / v1.rs on this run (a pin of generated constants, true by `decide`; if the
+handler is edited to pass anything else the extraction fails before this is checked) -/
+theorem handler_lifetime_generated :
+    handlerLifetimeIsExpMinusNow = true ∧ handlerRefusesPastExpiryBeforeRegister = true ∧
+      handlerRegisterCalls = 1 ∧ handlerRegisterKeyIsJti = true ∧ 0 < expUnitNs := by decide
+
+/-- **The registration lifetime never exceeds the token's remaining lifetime** (model of the handler):
+if the verifier accepted the token (claims `c`) and the handler, reading the clock at `nowNs`
+(nanoseconds), hands a lifetime `d` to the registry, then `c.exp` *is* the `exp` member of the verified
+payload and the registration ends exactly at it: `nowNs + d = exp · expUnitNs`. -/
 theorem lifetime_le_remaining (keys : Keys) (t : ParsedToken) (now nowNs d : Nat) (c : Claims)
     (hv : verify generatedValidation keys t now = .ok c) (hg : lifetime c.exp nowNs = .granted d) :
     (∃ cs, t.payload = .obj cs ∧ lookup cs "exp" = some (.num (.u64 c.exp))) ∧
-      nowNs + d = c.exp * 1000000000 ∧ d ≤ c.exp * 1000000000 - nowNs := by
+      nowNs + d = c.exp * expUnitNs ∧ d ≤ c.exp * expUnitNs - nowNs := by
   obtain ⟨_, key, _, _, cs, hpay, hany, _, _⟩ := (verify_eq_ok _ keys t now c).mp hv
   have hsv : SupportedVersion cs := (anyClaims_ok cs).mp ⟨c, hany⟩
   obtain ⟨n, hn⟩ := supported_exp cs hsv
@@ -106,8 +121,48 @@ theorem lifetime_le_remaining (keys : Keys) (t : ParsedToken) (now nowNs d : Nat
       omega
     · simp at hg
 
+/-- … and never more than what was left when the token was verified: if the handler's clock reading is
+not before the second `now` at which `verify` ran (`now · expUnitNs ≤ nowNs`), the granted lifetime is
+at most `(exp − now) · expUnitNs`, and nothing at all is granted to a token that `verify` let through
+inside the leeway after its expiry (`exp < now`). -/
+theorem lifetime_le_remaining_at_verification (exp now nowNs d : Nat)
+    (hclock : now * expUnitNs ≤ nowNs) (hg : lifetime exp nowNs = .granted d) :
+    d ≤ (exp - now) * expUnitNs ∧ now ≤ exp := by
+  unfold lifetime at hg
+  split at hg
+  · simp at hg
+  · split at hg
+    · rename_i _ hle
+      simp only [Grant.granted.injEq] at hg
+      have hu : 0 < expUnitNs := by decide
+      have hne : now ≤ exp := by
+        rcases Nat.lt_or_ge exp now with h | h
+        · exfalso
+          have : (exp + 1) * expUnitNs ≤ now * expUnitNs := Nat.mul_le_mul_right _ h
+          rw [Nat.add_mul] at this
+          omega
+        · exact h
+      refine ⟨?_, hne⟩
+      rw [Nat.sub_mul]
+      omega
+    · simp at hg
+
+/-- The registry adds the lifetime to a second clock reading (`Instant::now()`, taken `gap` ns after the
+handler's `SystemTime::now()`): on the time line of the first clock the registration ends at
+`exp · expUnitNs + gap` - it outlives the token by exactly the delay between the handler's two clock
+readings (a few statements; observed: well under a millisecond) and by nothing else. -/
+theorem registration_end (exp nowNs d gap : Nat) (hg : lifetime exp nowNs = .granted d) :
+    (nowNs + gap) + d = exp * expUnitNs + gap := by
+  unfold lifetime at hg
+  split at hg
+  · simp at hg
+  · split at hg
+    · simp only [Grant.granted.injEq] at hg
+      omega
+    · simp at hg
+
 /-- no registration at all once the token's expiry has passed -/
-theorem lifetime_none_after_expiry (exp nowNs : Nat) (h : exp * 1000000000 < nowNs) :
+theorem lifetime_none_after_expiry (exp nowNs : Nat) (h : exp * expUnitNs < nowNs) :
     ∀ d, lifetime exp nowNs ≠ .granted d := by
   intro d hg
   unfold lifetime at hg
@@ -118,12 +173,18 @@ theorem lifetime_none_after_expiry (exp nowNs : Nat) (h : exp * 1000000000 < now
     · simp at hg
 
 /-- the one panic site on the registration path: `Token::exp_time` (`UNIX_EPOCH + from_secs(exp)`)
-overflows `SystemTime` exactly when `exp > i64::MAX`; a token can be *accepted* with such an `exp`. -/
+overflows `SystemTime` exactly when `exp > i64::MAX`; a token can be *accepted* with such an `exp`
+(an observation about the handler, outside the property text; unfolding of the model's first test). -/
 theorem lifetime_panic_iff (exp nowNs : Nat) : lifetime exp nowNs = .panic ↔ i64Max < exp := by
   unfold lifetime
   split
   · simp [*]
   · split <;> simp [*]
+
+/-- premises of the lifetime theorems are satisfiable: a token verified at second 1 700 000 000 and
+registered half a second later, one hour before its expiry -/
+example : lifetime 1700003600 1700000000500000000 = .granted 3599500000000 ∧
+    1700000000 * expUnitNs ≤ 1700000000500000000 := by decide +kernel
 
 /-! ## 3. Per-clause corollaries ("any other string … is refused") -/
 
